@@ -1,12 +1,398 @@
-(* BK.v — internal/phase4/brandes_koepf.go (execBrandesKoepf). STUB: the functional model is being written;
-   until [bk_modelled] is true the correspondence treats the x-coordinates of this positioner as an oracle
-   (Contracts.v, phase4_oracle). *)
+(* BK.v — internal/phase4/brandes_koepf.go (execBrandesKoepf), statement by statement.
+
+   Conventions of this model:
+   - Go maps keyed by *Node become lists indexed by the arena index (length = length of the node arena).
+     NodeMaps (blockroot, alignment, sinks) are initialised with the identity as in the Go initialisation
+     loops over g.Nodes (every node that occurs in a layer is assumed to be in g.Nodes).
+   - xcoord maps are [list (option Q)]: [None] = the key is absent (reads as 0, is skipped by Size()).
+   - xshift is [list (option Q)] as well, but there [None] = outermostX(h), i.e. +Inf for h = right and -Inf
+     for h = left; a finite value is [Some q]. The opposite infinity never occurs, neither does NaN.
+   - directions: [vtop] = (layout.v == top), [hleft] = (layout.h == left);
+     layouts 0..3 = (bottom,right) (bottom,left) (top,right) (top,left).
+   - every Go index expression that can go out of range gives [Err (ErrIndex 8x)], every loop without an
+     obvious bound has fuel and gives [Err (ErrFuel 8x)]. *)
 From Autog Require Export Graph Phase4.
+Local Open Scope Q_scope.
 
-Definition bk_modelled : bool := false.
+Definition bk_modelled : bool := true.
 
+(* ---------- indexing with Go's panics ---------- *)
+Definition node_at (code : nat) (ns : list nat) (z : Z) : res nat :=
+  if (z <? 0)%Z then Err (ErrIndex code) else
+  match nth_error ns (Z.to_nat z) with Some n => Ok n | None => Err (ErrIndex code) end.
+
+(* g.Layers[z].Nodes *)
+Definition layer_at (code : nat) (g : graph) (z : Z) : res (list nat) :=
+  if (z <? 0)%Z then Err (ErrIndex code) else
+  match nth_error (g_L g) (Z.to_nat z) with Some l => Ok (l_nodes l) | None => Err (ErrIndex code) end.
+
+(* firstNodeInLayer / lastNodeInLayer: Head() for right, Tail() for left (and vice versa) *)
+Definition first_in (code : nat) (ns : list nat) (hleft : bool) : res nat :=
+  if hleft then node_at code ns (Z.of_nat (length ns) - 1)%Z else node_at code ns 0%Z.
+Definition last_in (code : nat) (ns : list nat) (hleft : bool) : res nat := first_in code ns (negb hleft).
+
+(* nextNodeInLayer / prevNodeInLayer *)
+Definition next_in (code : nat) (g : graph) (n : nat) (ns : list nat) (hleft : bool) : res nat :=
+  node_at code ns (n_pos (gnode g n) + (if hleft then -1 else 1))%Z.
+Definition prev_in (code : nat) (g : graph) (n : nat) (ns : list nat) (hleft : bool) : res nat :=
+  next_in code g n ns (negb hleft).
+
+(* iterLayers with Layer.Index (= position in g.Layers), iterNodes *)
+Definition iter_layers (g : graph) (vtop : bool) : list (nat * list nat) :=
+  let ls := combine (iota 0 (length (g_L g))) (map l_nodes (g_L g)) in
+  if vtop then rev ls else ls.
+Definition iter_nodes (ns : list nat) (hleft : bool) : list nat := if hleft then rev ns else ns.
+
+Definition layout_v (i : nat) : bool := Nat.leb 2 i.   (* true = top *)
+Definition layout_h (i : nat) : bool := Nat.odd i.     (* true = left *)
+
+(* ---------- initNeighbors ---------- *)
+(* neighbors[n][bottom] (upper neighbours, from In) resp. neighbors[n][top] (lower neighbours, from Out):
+   pairs (node, edge). The graph is not modified before the final assignment, so the map is a function. *)
+Definition bk_neigh (g : graph) (vtop : bool) (n : nat) : list (nat * nat) :=
+  let nd := gnode g n in
+  if vtop then
+    if (n_layer nd <? Z.of_nat (length (g_L g)) - 1)%Z
+    then flat_map (fun e => if viable g e then [(e_to (gedge g e), e)] else []) (n_out nd) else []
+  else
+    if (0 <? n_layer nd)%Z
+    then flat_map (fun e => if viable g e then [(e_from (gedge g e), e)] else []) (n_in nd) else [].
+
+(* ---------- markConflicts ---------- *)
+Definition incident_to_inner (g : graph) (n : nat) : Z :=
+  if negb (n_virt (gnode g n)) then (-1)%Z else
+  match find (fun e => let f := e_from (gedge g e) in
+                       n_virt (gnode g f) && (layer_of g f =? layer_of g n - 1)%Z) (n_in (gnode g n)) with
+  | Some e => n_pos (gnode g (e_from (gedge g e)))
+  | None => (-1)%Z
+  end.
+
+(* the l2-loop: the in-edges of the nodes ws whose source lies outside [k0, k1] are marked *)
+Definition mark_seg (g : graph) (k0 k1 : Z) (ws : list nat) (marked : list nat) : list nat :=
+  fold_left (fun m w =>
+     fold_left (fun m e =>
+        if viable g e then
+          let p := n_pos (gnode g (e_from (gedge g e))) in
+          if (p <? k0)%Z || (k1 <? p)%Z then e :: m else m
+        else m) (n_in (gnode g w)) m) ws marked.
+
+(* one step of the sweep: upper = Layers[i].Nodes, lower = Layers[i+1].Nodes *)
+Definition mark_layer (g : graph) (upper lower : list nat) (marked : list nat) : res (list nat) :=
+  do r <- fold_left (fun (acc : res (Z * list nat)) (p : nat * nat) =>
+            do a <- acc;
+            let '(k0, m) := a in
+            let '(l1, v) := p in
+            let ksrc := incident_to_inner g v in
+            if Nat.eqb (last lower 0%nat) v || (0 <=? ksrc)%Z then
+              do k1 <- (if (0 <=? ksrc)%Z then
+                          match bk_neigh g false v with
+                          | (u, _) :: _ => Ok (n_pos (gnode g u))
+                          | [] => Err (ErrIndex 81)
+                          end
+                        else Ok (Z.of_nat (length upper) - 1)%Z);
+              Ok (k1, mark_seg g k0 k1 (firstn (S l1) lower) m)
+            else Ok (k0, m))
+         (combine (iota 0 (length lower)) lower) (Ok (0%Z, marked));
+  Ok (snd r).
+
+(* the set of marked edges, as a list of edge indices (possibly with repetitions) *)
+Definition mark_conflicts (g : graph) : res (list nat) :=
+  let nl := length (g_L g) in
+  if Nat.ltb nl 4 then Ok [] else
+  fold_left (fun acc i => do m <- acc; mark_layer g (l_nodes (glayer g i)) (l_nodes (glayer g (S i))) m)
+            (iota 1 (nl - 2)) (Ok []).
+
+(* ---------- verticalAlign ---------- *)
+Definition median_idx (d : nat) (hleft : bool) : list nat :=
+  let m1 := ((d + 1) / 2 - 1)%nat in
+  let m2 := ((d + 2) / 2 - 1)%nat in
+  if hleft then [m2; m1] else [m1; m2].
+
+(* outermostPos: -1 for right, math.MaxInt ([None]) for left *)
+Definition outermost_pos (hleft : bool) : option Z := if hleft then None else Some (-1)%Z.
+Definition within_pos (hleft : bool) (r : option Z) (pos : Z) : bool :=
+  match r with
+  | None => true
+  | Some r => if hleft then (pos <? r)%Z else (r <? pos)%Z
+  end.
+
+(* state: (alignment, blockroot, r) *)
+Definition va_node (g : graph) (marked : list nat) (vtop hleft : bool)
+           (st : list nat * list nat * option Z) (vk : nat) : list nat * list nat * option Z :=
+  let nb := bk_neigh g vtop vk in
+  let d := length nb in
+  if Nat.eqb d 0 then st else
+  fold_left (fun (st : list nat * list nat * option Z) m =>
+     let '(al, rt, r) := st in
+     if Nat.eqb (nget al vk) vk then
+       let '(u, uv) := nth m nb (0%nat, 0%nat) in
+       if negb (mem_nat uv marked) && within_pos hleft r (n_pos (gnode g u)) then
+         let al := set_nth al u vk in
+         let rt := set_nth rt vk (nget rt u) in
+         let al := set_nth al vk (nget rt vk) in
+         (al, rt, Some (n_pos (gnode g u)))
+       else st
+     else st) (median_idx d hleft) st.
+
+(* returns (alignment, blockroot) *)
+Definition vertical_align (g : graph) (marked : list nat) (vtop hleft : bool) : list nat * list nat :=
+  let ids := iota 0 (length (g_na g)) in
+  fold_left (fun (ar : list nat * list nat) (l : nat * list nat) =>
+     let '(al, rt, _) := fold_left (va_node g marked vtop hleft) (iter_nodes (snd l) hleft)
+                                   (fst ar, snd ar, outermost_pos hleft) in
+     (al, rt)) (iter_layers g vtop) (ids, ids).
+
+(* ---------- horizontalCompaction ---------- *)
+Record bkc := mkBkc {
+  bk_sinks : list nat;
+  bk_xshift : list (option Q);     (* None = outermostX(h) *)
+  bk_xcoord : list (option Q);     (* None = key absent *)
+  bk_xcinit : list bool
+}.
+
+Definition set_sinks (c : bkc) l := mkBkc l (bk_xshift c) (bk_xcoord c) (bk_xcinit c).
+Definition set_xshift (c : bkc) l := mkBkc (bk_sinks c) l (bk_xcoord c) (bk_xcinit c).
+Definition set_xcoord (c : bkc) l := mkBkc (bk_sinks c) (bk_xshift c) l (bk_xcinit c).
+
+Definition xget (xc : list (option Q)) (n : nat) : Q := match nth n xc None with Some q => q | None => 0 end.
+Definition shget (xs : list (option Q)) (n : nat) : option Q := nth n xs (Some 0).
+
+(* max (h = left, markers are -Inf) resp. min (h = right, markers are +Inf) of two extended values *)
+Definition sh_comb (hleft : bool) (a s : option Q) : option Q :=
+  match a, s with
+  | None, _ => s
+  | _, None => a
+  | Some x, Some y => Some (if hleft then Qmax' x y else Qmin' x y)
+  end.
+
+Section Compaction.
+  Variables (g : graph) (hleft : bool) (spacing : Q) (al rt : list nat) (F : nat).
+
+  (* the first loop of placeBlock; rec = placeBlock with less fuel; v = block root, w = current node *)
+  Fixpoint pb_loop1 (rec : nat -> bkc -> res bkc) (k : nat) (v w : nat) (c : bkc) : res bkc :=
+    match k with
+    | O => Err (ErrFuel 83)
+    | S k =>
+        do ns <- layer_at 82 g (n_layer (gnode g w));
+        do lst <- last_in 83 ns hleft;
+        do c <- (if Nat.eqb w lst then Ok c else
+                 do u <- next_in 84 g w ns hleft;
+                 let uroot := nget rt u in
+                 do c <- rec uroot c;
+                 let c := if Nat.eqb (nget (bk_sinks c) v) v
+                          then set_sinks c (set_nth (bk_sinks c) v (nget (bk_sinks c) uroot)) else c in
+                 if Nat.eqb (nget (bk_sinks c) v) (nget (bk_sinks c) uroot) then
+                   let xc := bk_xcoord c in
+                   let x := if hleft then Qmax' (xget xc v) (xget xc uroot + (nW g u + spacing))
+                            else Qmin' (xget xc v) (xget xc uroot - (nW g v + spacing)) in
+                   Ok (set_xcoord c (set_nth xc v (Some x)))
+                 else Ok c);
+        let w := nget al w in
+        if Nat.eqb w v then Ok c else pb_loop1 rec k v w c
+    end.
+
+  (* the second loop of placeBlock: the members of the block get the coordinate and the class of the root *)
+  Fixpoint pb_loop2 (k : nat) (v w : nat) (c : bkc) : res bkc :=
+    match k with
+    | O => Err (ErrFuel 84)
+    | S k =>
+        let w := nget al w in
+        if Nat.eqb w v then Ok c else
+        let c := set_xcoord c (set_nth (bk_xcoord c) w (Some (xget (bk_xcoord c) v))) in
+        let c := set_sinks c (set_nth (bk_sinks c) w (nget (bk_sinks c) v)) in
+        pb_loop2 k v w c
+    end.
+
+  Fixpoint bk_place_block (fuel : nat) (v : nat) (c : bkc) : res bkc :=
+    match fuel with
+    | O => Err (ErrFuel 82)
+    | S f =>
+        if nth v (bk_xcinit c) false then Ok c else
+        let c := mkBkc (bk_sinks c) (bk_xshift c) (set_nth (bk_xcoord c) v (Some 0)) (set_nth (bk_xcinit c) v true) in
+        do c <- pb_loop1 (bk_place_block f) F v v c;
+        pb_loop2 F v v c
+    end.
+
+  (* the loop "for layout.alignment[v] != layout.blockroot[v]"; returns (v, j, c) *)
+  Fixpoint cs_inner (k : nat) (v j : nat) (c : bkc) : res (nat * nat * bkc) :=
+    match k with
+    | O => Err (ErrFuel 85)
+    | S k =>
+        if Nat.eqb (nget al v) (nget rt v) then Ok (v, j, c) else
+        let v := nget al v in
+        do ns <- layer_at 85 g (n_layer (gnode g v));
+        do fst_ <- first_in 86 ns hleft;
+        do c <- (if Nat.eqb v fst_ then Ok c else
+                 do u <- prev_in 87 g v ns hleft;
+                 let sk := bk_sinks c in
+                 let xs := bk_xshift c in
+                 let xc := bk_xcoord c in
+                 let s := if hleft
+                          then option_map (fun sh => sh + xget xc v + (xget xc u + nW g u + spacing)) (shget xs (nget sk v))
+                          else option_map (fun sh => sh + xget xc v - (xget xc u + spacing)) (shget xs (nget sk v)) in
+                 Ok (set_xshift c (set_nth xs (nget sk u) (sh_comb hleft (shget xs (nget sk u)) s))));
+        cs_inner k v (S j) c
+    end.
+
+  (* the loop "for j < len(g.Layers) && k < g.Layers[j].Len()" *)
+  Fixpoint cs_outer (fuel : nat) (j : nat) (k : Z) (c : bkc) : res bkc :=
+    match fuel with
+    | O => Err (ErrFuel 86)
+    | S fuel =>
+        if negb (Nat.ltb j (length (g_L g))) then Ok c else
+        let ns := l_nodes (glayer g j) in
+        if negb (k <? Z.of_nat (length ns))%Z then Ok c else
+        do vjk <- node_at 88 ns k;
+        do r <- cs_inner F vjk j c;
+        let '(v, j, c) := r in
+        cs_outer fuel j (n_pos (gnode g v) + 1)%Z c
+    end.
+
+  (* class shifts for one layer (index li, nodes ns) *)
+  Definition cs_layer (c : bkc) (li : nat) (ns : list nat) : res bkc :=
+    do n <- first_in 89 ns hleft;
+    let sn := nget (bk_sinks c) n in
+    if negb (Nat.eqb sn n) then Ok c else
+    let c := match shget (bk_xshift c) sn with
+             | None => set_xshift c (set_nth (bk_xshift c) sn (Some 0))
+             | Some _ => c
+             end in
+    cs_outer F li 0%Z c.
+End Compaction.
+
+Definition horizontal_compaction (g : graph) (spacing : Q) (vtop hleft : bool) (al rt : list nat)
+  : res (list (option Q)) :=
+  let na := length (g_na g) in
+  let F := (2 * na + 4)%nat in
+  let c0 := mkBkc (iota 0 na)
+                  (fold_left (fun xs n => set_nth xs n None) (g_N g) (repeat (Some 0) na))
+                  (repeat None na) (repeat false na) in
+  do c <- fold_left (fun acc (l : nat * list nat) =>
+             fold_left (fun acc n => do c <- acc;
+                                     if Nat.eqb (nget rt n) n then bk_place_block g hleft spacing al rt F F n c else Ok c)
+                       (iter_nodes (snd l) hleft) acc)
+          (iter_layers g vtop) (Ok c0);
+  do c <- fold_left (fun acc (l : nat * list nat) => do c <- acc; cs_layer g hleft spacing al rt F c (fst l) (snd l))
+          (iter_layers g vtop) (Ok c);
+  Ok (fold_left (fun xc n => match shget (bk_xshift c) (nget (bk_sinks c) n) with
+                             | Some sh => set_nth xc n (Some (xget xc n + sh))
+                             | None => xc
+                             end) (g_N g) (bk_xcoord c)).
+
+(* one of the four layouts *)
+Definition bk_layout (g : graph) (marked : list nat) (spacing : Q) (i : nat) : res (list (option Q)) :=
+  let '(al, rt) := vertical_align g marked (layout_v i) (layout_h i) in
+  horizontal_compaction g spacing (layout_v i) (layout_h i) al rt.
+
+(* ---------- xcoordinates.Size: (w, minx, maxx); None = the map is empty (Go: -Inf, +Inf, -Inf) ---------- *)
+Definition bk_size (g : graph) (xc : list (option Q)) : option (Q * Q * Q) :=
+  let r := fold_left (fun (acc : option (Q * Q)) (p : nat * option Q) =>
+              match snd p with
+              | None => acc
+              | Some x =>
+                  let r := x + nW g (fst p) in
+                  match acc with
+                  | None => Some (x, r)
+                  | Some (mn, mx) => Some (Qmin' mn x, Qmax' mx r)
+                  end
+              end) (combine (iota 0 (length xc)) xc) None in
+  match r with Some (mn, mx) => Some (mx - mn, mn, mx) | None => None end.
+
+(* ---------- balanceLayouts ---------- *)
+(* An empty coordinate map among the four (while g.Nodes is not empty) would make Go compute with ±Inf / NaN and
+   produce non-finite coordinates: reported as ErrIndex 90 (cannot happen when some layer has a node that is its
+   own block root or belongs to a block). *)
+Definition balance_layouts (g : graph) (xcs : list (list (option Q))) : res (list (option Q)) :=
+  let na := length (g_na g) in
+  match g_N g with
+  | [] => Ok (repeat None na)
+  | _ =>
+      do szs <- fold_right (fun xc acc => do l <- acc;
+                                          match bk_size g xc with Some s => Ok (s :: l) | None => Err (ErrIndex 90) end)
+                           (Ok []) xcs;
+      let sz i := nth i szs (0, 0, 0) in
+      let width i := fst (fst (sz i)) in
+      let minx i := snd (fst (sz i)) in
+      let maxx i := snd (sz i) in
+      let least := fold_left (fun lw i => if Qlt_bool (width i) (width lw) then i else lw) (iota 0 4) 0%nat in
+      let shift i := if Nat.odd i then minx least - minx i else maxx least - maxx i in
+      Ok (fold_left (fun mx n =>
+            let xs := isort Qle_bool (map (fun i => xget (nth i xcs []) n + shift i) (iota 0 4)) in
+            set_nth mx n (Some ((nth 1 xs 0 + nth 2 xs 0) / 2))) (g_N g) (repeat None na))
+  end.
+
+(* ---------- verifyLayout ---------- *)
+Definition verify_layer (g : graph) (spacing : Q) (xc : list (option Q)) (ns : list nat) : bool :=
+  match fold_left (fun (acc : option (option Q)) n =>
+           match acc with
+           | None => None                                   (* already returned false *)
+           | Some pos =>                                    (* pos: None = -Inf *)
+               let lf := xget xc n in
+               let r := xget xc n + nW g n + spacing in
+               if match pos with None => true | Some p => Qlt_bool p lf && Qlt_bool p r end
+               then Some (Some r) else None
+           end) ns (Some None) with
+  | Some _ => true
+  | None => false
+  end.
+
+Definition verify_layout (g : graph) (spacing : Q) (xc : list (option Q)) : bool :=
+  forallb (fun l => verify_layer g spacing xc (l_nodes l)) (g_L g).
+
+(* widths with None = -Inf (the width of an empty map) *)
+Definition wlt (a b : option Q) : bool :=
+  match a, b with
+  | None, Some _ => true
+  | Some x, Some y => Qlt_bool x y
+  | _, None => false
+  end.
+Definition bk_width (g : graph) (xc : list (option Q)) : option Q := option_map (fun s => fst (fst s)) (bk_size g xc).
+
+(* ---------- execBrandesKoepf ---------- *)
 (* variant: -1 = balanced (the default), 0..3 = the forced layout BrandesKoepfLayout *)
-Definition exec_bk (variant : Z) (spacing : Q) (g : graph) : res graph := Err (ErrIndex 80).
+Definition exec_bk (variant : Z) (spacing : Q) (g : graph) : res graph :=
+  match g_L g with
+  | [] => Ok g     (* no layer: nothing is read from the layouts, nothing is assigned *)
+  | _ =>
+  do marked <- mark_conflicts g;
+  do x0 <- bk_layout g marked spacing 0;
+  do x1 <- bk_layout g marked spacing 1;
+  do x2 <- bk_layout g marked spacing 2;
+  do x3 <- bk_layout g marked spacing 3;
+  let xcs := [x0; x1; x2; x3] in
+  do final <- (if (0 <=? variant)%Z && (variant <? 4)%Z then Ok (nth (Z.to_nat variant) xcs [])
+               else
+                 do bal <- balance_layouts g xcs;
+                 if verify_layout g spacing bal then Ok bal else
+                 Ok (snd (fold_left (fun (acc : option Q * list (option Q)) xc =>
+                                       if verify_layout g spacing xc then
+                                         let w := bk_width g xc in
+                                         if wlt w (fst acc) then (w, xc) else acc
+                                       else acc) xcs (bk_width g bal, bal))));
+  (* n.X = finalLayout[n], lmargin, l.H *)
+  let xs := flat_map l_nodes (g_L g) in
+  let g := fold_left (fun g n => upd_node g n (set_x (xget final n))) xs g in
+  let lmargin := fold_left (fun m n => Qmin' m (xget final n)) xs 0 in
+  let g := with_L g (map (fun l => set_layer_h (layer_height g (l_nodes l) (l_h l)) l) (g_L g)) in
+  (* normalize negative xs *)
+  let g := if Qlt_bool lmargin 0
+           then fold_left (fun g n => upd_node g n (fun nd => set_x (n_x nd + - lmargin) nd)) (g_N g) g
+           else g in
+  (* final adjustment of overlaps *)
+  let g := fold_left (fun g l =>
+             fst (fold_left (fun (acc : graph * option nat) w =>
+                    let '(g, prev) := acc in
+                    match prev with
+                    | None => (g, Some w)
+                    | Some v =>
+                        let vx := nX g v in
+                        let wx := nX g w in
+                        if Qlt_bool vx wx && Qlt_bool wx (vx + nW g v)
+                        then (upd_node g w (set_x (wx + (vx + nW g v + spacing - wx))), Some w)
+                        else (g, Some w)
+                    end) (l_nodes l) (g, None))) (g_L g) g in
+  Ok g
+  end.
 
 Definition phase4_bk (variant : Z) (p : p4params) (g : graph) : res graph :=
   if Nat.eqb (length (g_N g)) 1 then phase4 OtherPositioner p g else
